@@ -215,6 +215,12 @@ type VC struct {
 	nact     int
 	rootFrame *frame
 	compMath map[string]func(*VC)
+	depAdds  []nameEvent // C04: calls of addDep (string recorded, path condition)
+	nameUses []nameEvent // C04: places where a string goes into the output (name conversions, arguments, coq fields)
+}
+
+type nameEvent struct {
+	term, guard, label, pos string
 }
 
 func newVC(p *Program, name string) *VC {
